@@ -4,7 +4,7 @@
 arbitrary errors, error modes, backoff) with its laws checked by TLC over the whole bounded input space (MC_Execution);
 the REAL execution.execute_handler_once is run on configurations x states (incl. runtimes beyond 24 h) x handler
 behaviours, for an activity handler and a change handler, in exact virtual time; every record is judged by
-Execution!ClassifyC11 in TLC.
+Execution!ClassifyC11 in TLC. The three laws of the reference are also proved for all integers by TLAPS (ExecProof.tla).
 
 (A) Handling.tla model-checked exhaustively on the configurations named below (plus negative configurations that must
 fail, to show the invariants are not vacuous); (B) seeded random closed-loop scenarios of the profile(s) below run on
@@ -98,6 +98,21 @@ def run(ctx, rep) -> None:
     if not r.ok:
         rep.violation(f'reference laws of Execution violated: {r.violated}', files={'tlc.out': r.out[-100000:]})
         return
+    # the same laws for ALL integers (not only the bounded space above): proved by TLAPS (spec/ExecProof.tla)
+    import os, re, shutil, subprocess, tempfile
+    scratch = tempfile.mkdtemp(prefix='vf-tlaps-')
+    try:
+        for f in ('Execution.tla', 'ExecProof.tla'):
+            shutil.copy(os.path.join(tlc.SPEC, f), scratch)
+        pr = subprocess.run(['tlapm', '--threads', '8', 'ExecProof.tla'], cwd=scratch, capture_output=True, text=True, timeout=900)
+        m = re.search(r'All (\d+) obligations? proved', pr.stdout + pr.stderr)
+        if m is None:
+            rep.violation('TLAPS could not prove the laws of Execution for all integers', files={'tlapm.out': (pr.stdout + pr.stderr)[-20000:]})
+        else:
+            rep.extra['tlaps'] = {'module': 'ExecProof', 'obligations': int(m.group(1)), 'discharged': int(m.group(1)),
+                                  'theorems': ['NeverBeyondAll', 'ModesAll', 'RetryWithinAll']}
+    finally:
+        shutil.rmtree(scratch, ignore_errors=True)
     recs = execution_records(ctx.quick, ctx.seed)
     bad = records.judge('Rec_Execution', recs, rep=rep, shard=20000)
     rep.evaluations += len(recs); rep.traces += len(recs)
